@@ -1005,12 +1005,7 @@ func (d *driver) startAction() bool {
 			pl := pl
 			if !d.liveOf("poolupsert", pl) {
 				add(2, func() { d.startPoolUpsert(pl, d.rng.Intn(3), d.rng.Intn(2) == 0) })
-				// the Pool object is deleted through the API (its IPs stay; the pool is unsized from now on), read back first
-				add(1, func() {
-					gc, _ := d.serve("GET", "/v1/pool/"+pl, nil)
-					code, _ := d.serve("DELETE", "/v1/pool/"+pl, nil)
-					d.emit(M{"ev": "DeletePool", "pool": pl, "code": code, "getcode": gc})
-				})
+
 			}
 		}
 	}
@@ -1239,6 +1234,17 @@ func (d *driver) runTrace(id, length int) {
 	}
 	if !d.hung {
 		d.quiesce()
+	}
+	// the pool get/delete API, at the very end: deleting a Pool object while operations are in flight (and creating it again)
+	// makes binds that saw no Pool object race with the pre-allocation of the new one, which is outside C07's quantifier
+	if !d.hung && w.Alive && sc.Feat["pool"] {
+		for pl := range sc.Pools {
+			for i := 0; i < 2; i++ {
+				gc, _ := d.serve("GET", "/v1/pool/"+pl, nil)
+				code, _ := d.serve("DELETE", "/v1/pool/"+pl, nil)
+				d.emit(M{"ev": "DeletePool", "pool": pl, "code": code, "getcode": gc})
+			}
+		}
 	}
 }
 
